@@ -367,7 +367,9 @@ theorem mkdirAllR_eq (fs : FS) (hw : WF fs) (hs : ∃ m, fs.get [] = some (.dir 
     by_cases hp0 : p = []
     · subst hp0
       obtain ⟨m, hm⟩ := hs
-      have hst : statR fs [] = .found [] (.dir m) := by simp [statR, walkFuel, walk, hm]
+      have hst : statR fs [] = .found [] (.dir m) := by
+        show walk fs true maxLinks (99999 + 1) [] [] = _
+        simp only [walk, hm]
       simp only [mkdirAllR, hst]
       simp [mkdirAll, mkdirFrom]
     · have hlen : 0 < p.length := List.length_pos_iff.mpr hp0
@@ -899,13 +901,62 @@ theorem tarOne_root_nolink (fs : FS) (root : P) (hr : GoodPath root) (hroot : ro
       intro _ t'
       simp [newNode, hk]
 
+theorem tarOne_of_lex_false (fs : FS) (root : P) (mask : Nat) (e : Entry)
+    (h : lexOK root (cleanJoin root e.name) (e.kind == .dir) = false) : (tarOne fs root mask e).1 = fs := by
+  unfold tarOne
+  split
+  · rfl
+  · simp [h]
+
+theorem stepGet_other (fs : FS) (p : P) (nn : Option Nd) (dm : Nat) (q : P) (hq : fs.get q = none) (hqp : q ≠ p) :
+    stepGet fs.view p nn dm q = none ∨ ∃ m, stepGet fs.view p nn dm q = some (.dir m) := by
+  unfold stepGet FS.view
+  simp only
+  rw [hq]
+  simp only
+  rw [if_neg hqp]
+  split
+  · exact Or.inr ⟨_, rfl⟩
+  · exact Or.inl rfl
+
+/-- what an iteration can put at an absent path above the destination: a directory (`MkdirAll` of a missing ancestor) -/
+theorem tarOne_new_above (fs : FS) (root : P) (hr : GoodPath root) (hroot : root ≠ []) (mask : Nat) (e : Entry) (q : P)
+    (hlen : q.length < root.length) (hq : fs.get q = none) :
+    (tarOne fs root mask e).1.get q = none ∨ ∃ m, (tarOne fs root mask e).1.get q = some (.dir m) := by
+  cases hl : lexOK root (cleanJoin root e.name) (e.kind == .dir) with
+  | false => rw [tarOne_of_lex_false fs root mask e hl]; exact Or.inl hq
+  | true =>
+    have hp : root <+: cleanJoin root e.name := lexOK_prefix root _ hr (cleanJoin_good root e.name hr) _ hl
+    have hqp : q ≠ cleanJoin root e.name := by
+      intro e'; have := hp.length_le; rw [← e'] at this; omega
+    cases hb : (tarOne fs root mask e).2 with
+    | true =>
+      have hov : (tarOne fs root mask e).1.get q = (overlayStep root mask fs.view e).get q :=
+        congrArg (fun x => x.get q) (tarOne_overlay fs root hr hroot mask e _ rfl hb)
+      rw [hov]
+      by_cases hc : e.creates
+      · rw [overlayStep_get root mask _ e hc]; exact stepGet_other fs _ _ _ q hq hqp
+      · unfold overlayStep; rw [if_neg hc]; exact Or.inl hq
+    | false =>
+      rcases tarOne_failed_effect fs root hr hroot mask e _ rfl hb with h1 | ⟨_, h1⟩ | ⟨hk, _, h1⟩
+      · rw [h1]; exact Or.inl hq
+      · have hov : (tarOne fs root mask e).1.get q = stepGet fs.view (cleanJoin root e.name) none (0o755 &&& mask) q :=
+          congrArg (fun x => x.get q) h1
+        rw [hov]; exact stepGet_other fs _ _ _ q hq hqp
+      · have hov : (tarOne fs root mask e).1.get q = (overlayStep root mask fs.view e).get q :=
+          congrArg (fun x => x.get q) h1
+        rw [hov, overlayStep_get root mask _ e (Or.inl hk)]; exact stepGet_other fs _ _ _ q hq hqp
+
 theorem RInv.tarStep {fs : FS} {root : P} (hinv : RInv fs root) (hr : GoodPath root) (hroot : root ≠ [])
     (mask : Nat) (e : Entry) : RInv (tarOne fs root mask e).1 root := by
   have hsys := tarOne_sys root hr fs mask e
-  refine ⟨hsys.wf hinv.wf, ?_, tarOne_root_nolink fs root hr hroot mask e hinv.rootNoLink⟩
-  intro j hj
-  obtain ⟨m, hm⟩ := hinv.anc j hj
-  exact ⟨m, hsys.mono _ _ hm⟩
+  refine ⟨hsys.wf hinv.wf, ?_, ?_, tarOne_root_nolink fs root hr hroot mask e hinv.rootNoLink⟩
+  · obtain ⟨m, hm⟩ := hinv.slashDir
+    exact ⟨m, hsys.mono _ _ hm⟩
+  · intro j hj
+    rcases hinv.anc j hj with hm | ⟨m, hm⟩
+    · exact tarOne_new_above fs root hr hroot mask e _ (by rw [List.length_take]; omega) hm
+    · exact Or.inr ⟨m, hsys.mono _ _ hm⟩
 
 /-- an iteration of the zip loop is an iteration of the tar loop (on the entry read as a regular file when its kind
     is none of the three the zip reader yields), or changes nothing -/
@@ -963,5 +1014,35 @@ theorem zipExtractR_eq (root : P) (hroot : root ≠ []) (hr : GoodPath root) (hd
     (es : List Entry) (fs : FS) (hinv : RInv fs root) : zipExtractR fs root mask es = zipExtract fs root mask es :=
   extractWith_eq root _ _ (fun fs h e => zipOneR_eq fs root h hroot hr hdr mask e)
     (fun fs h e => h.zipStep hr hroot mask e) es fs hinv
+
+theorem RInv.tarRun {fs : FS} {root : P} (hinv : RInv fs root) (hr : GoodPath root) (hroot : root ≠ []) (mask : Nat)
+    (es : List Entry) : RInv (tarExtract fs root mask es).1 root := by
+  induction es generalizing fs with
+  | nil => exact hinv
+  | cons x xs ih =>
+    rw [tarExtract_cons]
+    split
+    · exact ih (hinv.tarStep hr hroot mask x)
+    · exact hinv.tarStep hr hroot mask x
+
+theorem RInv.zipRun {fs : FS} {root : P} (hinv : RInv fs root) (hr : GoodPath root) (hroot : root ≠ []) (mask : Nat)
+    (es : List Entry) : RInv (zipExtract fs root mask es).1 root := by
+  induction es generalizing fs with
+  | nil => exact hinv
+  | cons x xs ih =>
+    rw [zipExtract_cons]
+    split
+    · exact ih (hinv.zipStep hr hroot mask x)
+    · exact hinv.zipStep hr hroot mask x
+
+/-- outside the destination only missing ancestors of it can appear -/
+theorem Sys.outside' {root : P} {fs fs' : FS} (h : Sys root fs fs') (q : P) (hq : ¬ root <+: q)
+    (hex : q <+: root → fs.get q ≠ none) : fs'.get q = fs.get q := by
+  by_cases hrel : Related root q
+  · rcases hrel with hpre | hpre
+    · obtain ⟨n, hn⟩ := Option.ne_none_iff_exists'.mp (hex hpre)
+      rw [h.mono q n hn, hn]
+    · exact absurd hpre hq
+  · exact h.frame q hrel
 
 end Ex
